@@ -234,9 +234,16 @@ func verifC03_deflate() {
 	}
 	// second message: compressed again (exercises reader reuse / context takeover bookkeeping) or plain
 	second := vBytes("second", 2)
-	if vChoose("secondCompressed", 2) == 1 {
+	takeover := (client && (mode == 1 || mode == 3)) || (!client && (mode == 1 || mode == 4))
+	switch k := vChoose("secondKind", 3); {
+	case k == 1:
 		frames = append(frames, vDataFrames(vStored(second, []int{2}, false), nil, 1, true, client)...)
-	} else {
+	case k == 2 && takeover && n >= 1:
+		// with context takeover the peer may refer back into the previous message: a match of length 3 at distance 1
+		frames = append(frames, vDataFrames(vBackrefProbe, nil, 1, true, client)...)
+		second = []byte{data[n-1], data[n-1], data[n-1]}
+		vReach("C03.deflate.backref-into-previous-message")
+	default:
 		frames = append(frames, vDataFrames(second, nil, 1, false, client)...)
 	}
 	t := vNewTransport(vEncodeFrames(frames))
